@@ -89,9 +89,9 @@ func VerifConfigFromPairs(pairs [][2]string) (config, error) {
 	return c, nil
 }
 
-func VerifDefaultConfig() config      { return defaultConfig() }
-func VerifCurrentConfig() config      { return currentConfig() }
-func VerifSetCurrentConfig(c config)  { setCurrentConfig(c) }
+func VerifDefaultConfig() config       { return defaultConfig() }
+func VerifCurrentConfig() config       { return currentConfig() }
+func VerifSetCurrentConfig(c config)   { setCurrentConfig(c) }
 func VerifConfigure(n, v string) error { return configure(n, v) }
 
 // VerifSetField runs cfg.set on the named field; ok=false if there is no such field.
